@@ -9,6 +9,13 @@
 (*  - _robust_gp_fit_ (l.514-638): up to NTryFit attempts; from the second *)
 (*    failure on (i_try > RemoveAfter - 1) the closest/worst points are    *)
 (*    dropped from X, Y -- and the noise vector must shrink with them.     *)
+(*    How many points go is data dependent: the larger member of the       *)
+(*    closest pair plus every point above the 95th percentile, i.e. between *)
+(*    1 and 1 + ceil(n/20) rows, and for n >= 2 never all of them.  For     *)
+(*    n = 1 the "closest pair" is the point itself: without a guard the     *)
+(*    set becomes EMPTY and the next attempt fails with a ValueError that   *)
+(*    no handler catches (GuardSingle = FALSE reproduces the defect found   *)
+(*    on the pinned tree; the repaired code corresponds to TRUE).           *)
 (*                                                                         *)
 (* A run performs the initial training and then NRefit robust refits; fit  *)
 (* invocations are numbered 0,1,2,... across the run and invocation k      *)
@@ -25,7 +32,8 @@ CONSTANTS NFit,        \* fault patterns range over invocations 0..NFit-1
           RemoveAfter, \* options['remove_points_after_tries'] (1)
           N0,          \* training-set size
           HasNoise,    \* a noise vector accompanies the training set
-          ShrinkNoise  \* TRUE: the noise vector is shrunk together with X, Y
+          ShrinkNoise, \* TRUE: the noise vector is shrunk together with X, Y
+          GuardSingle  \* TRUE: a one-point training set is never shrunk further
 
 VARIABLES pattern, phase, fi, att, nX, nY, nS, refits, hypKind, ok
 
@@ -40,6 +48,14 @@ Init ==
   /\ refits = 0 /\ hypKind = "given" /\ ok = TRUE
 
 Consistent == nX = nY /\ (nS = -1 \/ nS = nX)
+
+\* numbers of rows a failed attempt may remove from an n-point set (l.552-575)
+MaxDrop(n) == 1 + (n + 19) \div 20
+Drops(n, a) ==
+  IF a <= RemoveAfter - 1 THEN {0}
+  ELSE IF n >= 2 THEN 1 .. (IF MaxDrop(n) < n - 1 THEN MaxDrop(n) ELSE n - 1)
+  ELSE IF n = 1 THEN (IF GuardSingle THEN {0} ELSE {1})
+  ELSE {0}
 
 \* one attempt of the initial training
 InitAttempt ==
@@ -61,9 +77,12 @@ RefitAttempt ==
   /\ IF ~Consistent
      THEN \* a shape error escapes the retry loop: the run aborts
           /\ phase' = "aborted" /\ ok' = FALSE /\ UNCHANGED <<att, nX, nY, nS, refits>>
+     ELSE IF nX = 0
+          THEN \* fitting an empty set raises a ValueError, which is not handled
+               /\ phase' = "aborted" /\ ok' = FALSE /\ UNCHANGED <<att, nX, nY, nS, refits>>
      ELSE IF fi \in pattern
-          THEN LET drop == IF att > RemoveAfter - 1 /\ nX > 2 THEN 1 ELSE 0
-               IN /\ att' = att + 1
+          THEN \E drop \in Drops(nX, att) :
+                  /\ att' = att + 1
                   /\ nX' = nX - drop /\ nY' = nY - drop
                   /\ nS' = IF nS = -1 THEN -1 ELSE IF ShrinkNoise THEN nS - drop ELSE nS
                   /\ UNCHANGED <<phase, refits, ok>>
@@ -90,5 +109,6 @@ Spec == Init /\ [][Next]_vars /\ WF_vars(Next)
 \* C16
 FitArgsConsistent == phase = "refit" => Consistent
 NeverAborts == phase # "aborted"
+FitSetNonEmpty == phase = "refit" => nX >= 1
 RunCompletes == <>(phase = "done")
 =============================================================================
